@@ -1,7 +1,7 @@
 (* C17: how long the encodings of the node's datagrams are.
    - the exact length of an encoded response (and error) as a function of the field sizes;
    - every reply [handle_query] produces encodes, to at most 1500 bytes, for transaction ids up
-     to 890 bytes (the values cap of src/handler.rs is what makes this true for get_peers);
+     to 800 bytes (the values cap of src/handler.rs is what makes this true for get_peers);
    - the queries the node builds are small. *)
 From BT Require Import model.Prelude gen.Consts model.Compact model.Krpc model.Token model.Storage model.Table model.Txn model.Handler.
 From BT Require Import proofs.Prelude_Facts proofs.Txn_Facts proofs.Bencode_Facts proofs.Compact_Facts proofs.Krpc_Facts proofs.Handler_Facts.
@@ -114,7 +114,8 @@ Proof.
     rewrite ?app_length, ?values_body_length; cbn [length];
     change (slen (length k_id)) with 4; change (slen id_len) with 23;
     try change (slen (length k_values)) with 8; try change (slen (length k_nodes)) with 7;
-    try change (slen (length k_nodes6)) with 8; try change (slen (length k_token)) with 7; lia.
+    try change (slen (length k_nodes6)) with 8; try change (slen (length k_token)) with 7;
+    unfold sum_nat; cbn [map fold_right]; lia.
 Qed.
 
 (* a whole response datagram: "d1:r" <return values> "1:t" <tid> "1:y1:re" *)
@@ -137,7 +138,8 @@ Proof.
   unfold encode_msg. cbn [m_body m_tid]. eexists. split; [reflexivity|].
   rewrite ser_map_length. unfold enc_error, enc_u. filt.
   cbn [map sum_nat fold_right]. unfold elen. cbn [fst snd]. rewrite !ser_str_len. cbn [length]. rewrite !app_length, ser_str_len.
-  cbn [length]. change (slen (length k_t)) with 3. change (slen (length k_y)) with 3. change (slen (length k_e)) with 3.
+  cbn [length]. rewrite ?app_length. cbn [length].
+  change (slen (length k_t)) with 3. change (slen (length k_y)) with 3. change (slen (length k_e)) with 3.
   lia.
 Qed.
 
@@ -179,7 +181,9 @@ Qed.
 (* ------------------------------------------------------------------ *)
 (* every reply of handle_query                                        *)
 
-Definition max_tid_len : nat := 890.
+(* 1500 - REPLY_OVERHEAD_LEN: up to here the values cap leaves room for everything else.  (The
+   bound stays true up to 888 bytes, where the cap is 0 and two full node lists still fit.) *)
+Definition max_tid_len : nat := 800.
 
 Lemma forallb_family_false l : forallb (fun n => negb (a_v6 (n_addr n))) l = true -> Forall (fun n => a_v6 (n_addr n) = false) l.
 Proof.
@@ -220,7 +224,7 @@ Proof.
   pose proof (resp_len_bound r (800 - length tid) L4 L6
                 ltac:(cbn [r r_token]; destruct tok; [rewrite Htok; lia | exact I]) Hv) as Hr.
   unfold max_tid_len in Ht.
-  pose proof (slen_mono (length tid) 890 3 Ht ltac:(cbn; lia) ltac:(lia)) as Hsl.
+  pose proof (slen_mono (length tid) 800 3 Ht ltac:(cbn; lia) ltac:(lia)) as Hsl.
   assert (Hsl2 : slen (length tid) <= 4 + length tid).
   { unfold slen. pose proof (dlen_le (length tid) 3 ltac:(cbn; lia) ltac:(lia)). lia. }
   lia.
@@ -256,8 +260,8 @@ Proof.
       pose proof (slen_mono (length x) 30 2 Hx ltac:(cbn; lia) ltac:(lia)). unfold max_tid_len in *. lia. }
     destruct (if Nat.eqb (length token) 20 then _ else false).
     + destruct Ha as [_ Ha]. inversion Ha; subst m.
-      destruct (fst (add _ now st)); [exact Hempty | apply Herr; [cbn; lia | cbn; lia]].
-    + destruct Ha as [_ Ha]. inversion Ha; subst m. apply Herr; [cbn; lia | cbn; lia].
+      destruct (fst (add _ now st)); [exact Hempty | apply Herr; [vm_compute; lia | vm_compute; lia]].
+    + destruct Ha as [_ Ha]. inversion Ha; subst m. apply Herr; [vm_compute; lia | vm_compute; lia].
 Qed.
 
 (* ------------------------------------------------------------------ *)
